@@ -20,6 +20,7 @@ thread_local! {
     static OUTPUT: RefCell<Vec<String>> = RefCell::new(Vec::new());
     static MODULES: RefCell<BTreeMap<String, String>> = RefCell::new(BTreeMap::new());
     static PANIC_MSG: RefCell<Option<String>> = RefCell::new(None);
+    static PROBES: RefCell<Vec<HeapDump>> = RefCell::new(Vec::new());
 }
 
 fn local_print(vm: &mut Vm, num_args: usize) -> Result<Value, Error> {
@@ -62,6 +63,15 @@ raise_native!(raise_value, ErrorKind::ValueError);
 
 fn host_ok(_vm: &mut Vm, _n: usize) -> Result<Value, Error> {
     Ok(Value::Number(42.0))
+}
+
+/// `heap_probe()`: collect now and record what is alive, from inside the running program
+#[cfg(feature = "hooks")]
+fn heap_probe(_vm: &mut Vm, _n: usize) -> Result<Value, Error> {
+    yarel::memory::verif::force_collect();
+    let d = heap_dump();
+    PROBES.with(|p| p.borrow_mut().push(d));
+    Ok(Value::None)
 }
 
 fn kind_name(kind: ErrorKind) -> &'static str {
@@ -175,6 +185,9 @@ fn register_natives(vm: &mut Vm, natives: &[String]) {
             vm.define_native("main", name, f);
         } else if n == "host_ok" {
             vm.define_native("main", "host_ok", host_ok);
+        } else if n == "heap_probe" {
+            #[cfg(feature = "hooks")]
+            vm.define_native("main", "heap_probe", heap_probe);
         } else if let Some(rest) = n.strip_prefix("intern_global:") {
             if let Some((name, text)) = rest.split_once(':') {
                 let s = vm.new_gc_obj_string(text);
@@ -344,6 +357,7 @@ fn handle_run(req: &Request, resp: &mut Response) -> bool {
             let (slots, size, _mask) = vm.verif_string_store_dump();
             resp.store = Some((size, slots.len()));
         }
+        resp.probes = PROBES.with(|p| std::mem::take(&mut *p.borrow_mut()));
         if req.want.iter().any(|w| w == "gc_then_heap") {
             // what survives a collection while the interpreter is still alive
             verif::set_gc_mode(GcMode::Default);
@@ -468,8 +482,14 @@ fn handle_compile_batch(req: &Request, resp: &mut Response) -> bool {
 #[cfg(feature = "hooks")]
 fn handle_intern(req: &Request, resp: &mut Response) -> bool {
     use yarel::vm::verif_vm::VerifInternTable;
+    let never = req.gc.as_ref().map(|g| g.mode == "never").unwrap_or(false);
     let r = panic::catch_unwind(AssertUnwindSafe(|| {
         let mut vm = Vm::new();
+        // long ladders: the strings of the stand-alone table are rooted anyway, so collecting at every
+        // allocation (checked build) only costs time quadratic in the ladder's length
+        if never {
+            yarel::memory::verif::set_gc_mode(yarel::memory::verif::GcMode::Never);
+        }
         let mut all = Vec::new();
         let alts: Vec<Option<&InternOp>> = if req.intern_alts.is_empty() {
             vec![None]
@@ -516,6 +536,7 @@ fn handle_intern(req: &Request, resp: &mut Response) -> bool {
         }
         all
     }));
+    yarel::memory::verif::set_gc_mode(yarel::memory::verif::GcMode::Default);
     match r {
         Ok(all) => {
             resp.intern = all;
